@@ -25,6 +25,13 @@ theorem stdMax_eq (a b : K) : @stdMax K (fieldNum F) a b = max a b := by
 @[simp] theorem lit_eq (t : Lit) : @lit K (fieldNum F) t = litK t := rfl
 @[simp] theorem tget_eq (t : List Lit) (i : Nat) : @tget K (fieldNum F) t i = litK (t.getD i (0, 0, 1)) := rfl
 
+@[simp] theorem sqrt_eq (x : K) : @BNum.sqrt K (fieldNum F) x = F.sqrt x := rfl
+@[simp] theorem log_eq (x : K) : @BNum.log K (fieldNum F) x = F.log x := rfl
+@[simp] theorem floor_eq (x : K) : @BNum.floor K (fieldNum F) x = F.floor x := rfl
+@[simp] theorem ceil_eq (x : K) : @BNum.ceil K (fieldNum F) x = F.ceil x := rfl
+@[simp] theorem fmax_eq (x y : K) : @BNum.fmax K (fieldNum F) x y = max x y := rfl
+@[simp] theorem pow_eq (x y : K) : @BNum.pow K (fieldNum F) x y = F.pow x y := rfl
+
 @[simp] theorem litK_c0 : (litK c0 : K) = 0 := by simp [litK, c0]
 @[simp] theorem litK_c1 : (litK c1 : K) = 1 := by simp [litK, c1]
 @[simp] theorem litK_c0_5 : (litK c0_5 : K) = 1 / 2 := by simp [litK, c0_5]
